@@ -545,35 +545,117 @@ func runC16(c *eng.Ctx) {
 	c.Rule("GUARD", "series/metric.BrokerBatchShardFamilyIterator{rows inside the first row's family range}", func() {
 		fiT := "series/metric.BrokerBatchShardFamilyIterator"
 		trOf := eng.CallTo(fiT + ".timeRangeOfTimestamp")
-		ftOf := eng.CallTo(fiT + ".familyTimeOfTimestamp")
 		contains := eng.AnyCallTo("pkg/timeutil.TimeRange.Contains")
 		sameKey := fiT + ".isSameFamily"
 		if p.Func(sameKey) == nil {
 			sameKey = fiT + ".reset" // the scan written in place in its only caller
 		}
+		calcFT := invokeOn(".intervalCalc", "CalcFamilyTime")
+		// famArg resolves a family-time value to the timestamp it is computed from: intervalCalc.CalcFamilyTime(ts), directly
+		// or through unexported helpers (familyTimeOfTimestamp, a scan that hands the family time back as a result)
+		var famArg func(v ssa.Value, d int) ssa.Value
+		famArg = func(v ssa.Value, d int) ssa.Value {
+			if d > 4 {
+				return nil
+			}
+			idx := 0
+			cv := v
+			if e, ok := cv.(*ssa.Extract); ok {
+				idx, cv = e.Index, e.Tuple
+			}
+			cl, ok := cv.(*ssa.Call)
+			if !ok {
+				return nil
+			}
+			if calcFT(p, cl) {
+				return cl.Common().Args[0]
+			}
+			g := eng.TransparentCallee(cl)
+			if g == nil {
+				return nil
+			}
+			var out ssa.Value
+			for _, b := range g.Blocks {
+				for _, in := range b.Instrs {
+					r, isRet := in.(*ssa.Return)
+					if !isRet || idx >= len(r.Results) {
+						continue
+					}
+					x := r.Results[idx]
+					if _, isConst := x.(*ssa.Const); isConst {
+						continue // the "no rows" exit
+					}
+					a := famArg(x, d+1)
+					if a == nil {
+						return nil
+					}
+					if pr, isP := a.(*ssa.Parameter); isP && pr.Parent() == g {
+						for pi, gp := range g.Params {
+							if gp == pr && pi < len(cl.Common().Args) {
+								a = cl.Common().Args[pi]
+							}
+						}
+					}
+					if out != nil && !eng.SameValue(out, a) {
+						return nil
+					}
+					out = a
+				}
+			}
+			return out
+		}
 		for _, fk := range []string{sameKey, fiT + ".HasNextFamily"} {
 			f := c.Fn(fk)
 			tr := c.One(f, trOf, "timeRangeOfTimestamp(first)")
-			ft := c.One(f, ftOf, "familyTimeOfTimestamp(first)")
 			a1 := eng.CallArgs(tr.Instr.(*ssa.Call))[0]
-			a2 := eng.CallArgs(ft.Instr.(*ssa.Call))[0]
-			c.Check(eng.SameValue(a1, a2), fk+":range-and-family-time-of-one-timestamp", ft.Instr, f, "the family time handed out and the range rows are tested against come from the same (first) timestamp", p.Desc(a1)+" vs "+p.Desc(a2))
+			// the store of the group's family time: in the scan, or in its caller when the scan hands the value back
+			stFn := f
+			cands := p.Sites(f, eng.StoreField(fiT+".groupFamilyTime"))
+			if len(cands) == 0 && strings.HasSuffix(fk, ".isSameFamily") {
+				stFn = c.Fn(fiT + ".reset")
+				for _, s := range p.Sites(stFn, eng.StoreField(fiT+".groupFamilyTime")) {
+					cv, _ := storedValue(s.Instr)
+					if _, isConst := cv.(*ssa.Const); !isConst {
+						cands = append(cands, s)
+					}
+				}
+			}
+			if len(cands) == 0 {
+				c.Undecided("unresolved anchor: no itr.groupFamilyTime = ... in %s or its caller", fk)
+				continue
+			}
 			var st eng.Site
+			var a2 ssa.Value
 			var v ssa.Value
-			for _, cand := range c.Some(f, eng.StoreField(fiT+".groupFamilyTime"), "itr.groupFamilyTime = ...") {
+			for _, cand := range cands {
 				cv, _ := storedValue(cand.Instr)
 				if _, isConst := cv.(*ssa.Const); isConst && st.Instr != nil {
 					continue // a plain re-initialisation next to the computed store
 				}
-				if st.Instr == nil || cv == ft.Instr.(ssa.Value) {
+				if a := famArg(cv, 0); st.Instr == nil || a != nil {
 					st, v = cand, cv
+					if a != nil {
+						a2 = a
+					}
 				}
 			}
-			c.Check(v == ft.Instr.(ssa.Value), fk+":group-family-time", st.Instr, f, "the group's family time is familyTimeOfTimestamp(first)", "stores "+p.Desc(v))
-			cs := c.Some(f, contains, "timeRange.Contains(row timestamp)")
+			c.Check(a2 != nil, fk+":group-family-time", st.Instr, stFn, "the group's family time is familyTimeOfTimestamp(first)", "stores "+p.Desc(v))
+			if a2 == nil {
+				continue
+			}
+			c.Check(eng.SameValue(a1, a2), fk+":range-and-family-time-of-one-timestamp", st.Instr, f, "the family time handed out and the range rows are tested against come from the same (first) timestamp", p.Desc(a1)+" vs "+p.Desc(a2))
+			// the membership tests: in the scan itself or in an unexported helper that is handed the range
+			var cs []eng.Site
+			for _, s := range p.SitesT(f, contains) {
+				cs = append(cs, s)
+			}
+			if len(cs) == 0 {
+				c.Undecided("unresolved anchor: no timeRange.Contains(row timestamp) in %s", fk)
+				continue
+			}
 			for i, cn := range cs {
 				call := cn.Instr.(*ssa.Call)
-				recv := call.Common().Args[0]
+				recv := eng.UpParamVia(f, cn, call.Common().Args[0])
 				c.Check(eng.DependsOn(recv, func(x ssa.Value) bool { return x == tr.Instr.(ssa.Value) }), fmt.Sprintf("%s:tested-against-first-rows-range[%d]", fk, i), call, f,
 					"membership is tested against the family range of the group's first row", "receiver "+p.Desc(recv))
 				arg := call.Common().Args[1]
@@ -583,7 +665,8 @@ func runC16(c *eng.Ctx) {
 				}), fmt.Sprintf("%s:tests-the-rows-timestamp[%d]", fk, i), call, f, "the value tested is a row's timestamp", "tests "+p.Desc(arg))
 			}
 			// acceptance only on the Contains edge
-			te, fe := eng.BoolCheckEdges(f, cs[0].Instr.(ssa.Value))
+			cf := cs[0].Instr.Parent()
+			te, fe := eng.BoolCheckEdges(cf, cs[0].Instr.(ssa.Value))
 			c.Check(len(te) > 0 && len(fe) > 0, fk+":membership-branches", cs[0].Instr, f, "the membership test decides a branch", "")
 			if fk == sameKey && strings.HasSuffix(fk, ".reset") {
 				// in-place form: a row outside the range clears the sameFamily flag, and the rows are then sorted
@@ -604,39 +687,75 @@ func runC16(c *eng.Ctx) {
 				}
 			} else if strings.HasSuffix(fk, ".isSameFamily") {
 				// "all rows in one family" is answered true only when no row failed the test: the false edge leads to `return false`
+				bi := 0
+				for ri := 0; ri < f.Signature.Results().Len(); ri++ {
+					if bt, ok := f.Signature.Results().At(ri).Type().Underlying().(*types.Basic); ok && bt.Kind() == types.Bool {
+						bi = ri
+					}
+				}
 				for i, e := range fe {
 					first := e.B.Succs[e.Succ].Instrs[0]
-					_, canTrue := eng.PathExists(eng.PathQuery{Fn: f, After: first, Target: func(in ssa.Instruction) bool {
+					_, canTrue := eng.PathExists(eng.PathQuery{Fn: cf, After: first, Target: func(in ssa.Instruction) bool {
 						r, ok := in.(*ssa.Return)
 						if !ok {
 							return false
 						}
-						k, isC := eng.RetVal(r, 0).(*ssa.Const)
+						k, isC := eng.RetVal(r, bi).(*ssa.Const)
 						return !isC || k.Value == nil || k.Value.String() != "false"
 					}})
 					r0, isRet := first.(*ssa.Return)
 					okF := isRet && !canTrue
 					if isRet {
-						k, isC := eng.RetVal(r0, 0).(*ssa.Const)
+						k, isC := eng.RetVal(r0, bi).(*ssa.Const)
 						okF = isC && k.Value != nil && k.Value.String() == "false"
 					}
 					c.Check(okF, fmt.Sprintf("%s:outside-row-means-not-same[%d]", fk, i), first, f, "a row outside the first row's family range makes isSameFamily answer false", "")
 				}
 			} else {
+				// the group grows by one row at exactly one place, and only on the true edge of the membership test: groupEnd++ in the
+				// scan, or the counter of a helper whose result becomes groupEnd
 				nInc := 0
-				for i, s := range p.Sites(f, eng.StoreField(fiT+".groupEnd")) {
-					sv, _ := storedValue(s.Instr)
-					if _, k := eng.SplitConstAdd(sv); k != 1 {
-						continue // groupEnd = len(rows) on the same-family fast path
-					}
+				checkInc := func(i int, at ssa.Instruction) {
 					ok := false
 					for _, e := range te {
-						if eng.DominatedByEdge(f, s.Instr, e) {
+						if eng.DominatedByEdge(cf, at, e) {
 							ok = true
 						}
 					}
 					nInc++
-					c.Check(ok, fmt.Sprintf("%s:extend-only-inside-range[%d]", fk, i), s.Instr, f, "the group is extended by a row only on the true edge of the membership test", "")
+					c.Check(ok, fmt.Sprintf("%s:extend-only-inside-range[%d]", fk, i), at, f, "the group is extended by a row only on the true edge of the membership test", "")
+				}
+				for i, s := range p.Sites(f, eng.StoreField(fiT+".groupEnd")) {
+					sv, _ := storedValue(s.Instr)
+					if _, k := eng.SplitConstAdd(sv); k == 1 && cf == f {
+						checkInc(i, s.Instr)
+						continue
+					}
+					// groupEnd = helper(...): the helper's result is a counter stepped by one
+					cl, isCall := sv.(*ssa.Call)
+					if !isCall || cf == f || eng.TransparentCallee(cl) != cf {
+						continue // groupEnd = len(rows) on the same-family fast path
+					}
+					for _, b := range cf.Blocks {
+						for _, in := range b.Instrs {
+							bo, isBo := in.(*ssa.BinOp)
+							if !isBo {
+								continue
+							}
+							if _, k := eng.SplitConstAdd(bo); k != 1 {
+								continue
+							}
+							feeds := false
+							for _, r := range eng.SuccessReturns(cf) {
+								if eng.DependsOn(eng.RetVal(r, 0), func(x ssa.Value) bool { return x == ssa.Value(bo) }) {
+									feeds = true
+								}
+							}
+							if feeds {
+								checkInc(i, bo)
+							}
+						}
+					}
 				}
 				c.Check(nInc == 1, fk+":one-extension-site", nil, f, "the group grows at exactly one place (groupEnd++)", fmt.Sprintf("%d", nInc))
 			}
@@ -658,9 +777,10 @@ func runC16(c *eng.Ctx) {
 			c.Check(eng.DependsOn(rv, func(x ssa.Value) bool { return x == stt.Instr.(ssa.Value) }) && eng.DependsOn(rv, func(x ssa.Value) bool { return x == end.Instr.(ssa.Value) }),
 				fmt.Sprintf("range:returns-start-end[%d]", i), r, tf, "the returned range is [start, end] of that family", "returns "+p.Desc(rv))
 		}
-		ftf := c.Fn(fiT + ".familyTimeOfTimestamp")
-		cft := c.One(ftf, invokeOn(".intervalCalc", "CalcFamilyTime"), "CalcFamilyTime(ts)")
-		c.Check(eng.CallArgs(cft.Instr.(*ssa.Call))[0] == ssa.Value(ftf.Params[1]), "family-time-of-the-timestamp", cft.Instr, ftf, "the family time is computed from the timestamp", "")
+		if ftf := p.Func(fiT + ".familyTimeOfTimestamp"); ftf != nil { // when written in place, famArg above has followed it to CalcFamilyTime(ts)
+			cft := c.One(ftf, invokeOn(".intervalCalc", "CalcFamilyTime"), "CalcFamilyTime(ts)")
+			c.Check(eng.CallArgs(cft.Instr.(*ssa.Call))[0] == ssa.Value(ftf.Params[1]), "family-time-of-the-timestamp", cft.Instr, ftf, "the family time is computed from the timestamp", "")
+		}
 		// NextFamily hands out exactly [groupStart, groupEnd) with the group's family time
 		nf := c.Fn(fiT + ".NextFamily")
 		for i, r := range eng.SuccessReturns(nf) {
